@@ -63,6 +63,10 @@ type c12Case struct {
 	Query    string            `json:"query,omitempty"` // the query text (for shape selection)
 	Stage    *c12StageCase     `json:"stage,omitempty"`
 	Class    string            `json:"class,omitempty"` // parameter class label for the distribution
+	// kinds "gone" / "tail" (c12gone.go): the client goes away at the (GoneAfter+1)-th chunk (-1: before the handler starts);
+	// WriteErr: the handler's writes fail from then on (tail: the TCP connection is dropped instead of a close frame)
+	GoneAfter int  `json:"gone_after,omitempty"`
+	WriteErr  bool `json:"write_err,omitempty"`
 }
 
 // ---- outcome (child → parent)
@@ -80,6 +84,7 @@ type c12Outcome struct {
 	AfterAbortMs int64 `json:"after_abort_ms,omitempty"` // how long the handler kept running after the client had gone
 	Slow      bool     `json:"slow,omitempty"` // answered, but later than the idle deadline (body kept flowing)
 	StageOut  string   `json:"stage_out,omitempty"`
+	Chunks    int      `json:"chunks,omitempty"` // kinds gone/tail: Write calls of the handler / websocket messages read
 	Dump      string   `json:"dump,omitempty"`
 }
 
@@ -258,6 +263,12 @@ func qrynDump() string {
 }
 
 func (c *c12Child) run(cs *c12Case) c12Outcome {
+	switch cs.Kind {
+	case "gone":
+		return c.runGone(cs)
+	case "tail":
+		return c.runTail(cs)
+	}
 	if cs.Kind != "" && cs.Kind != "http" {
 		return c.runStage(cs)
 	}
@@ -549,6 +560,10 @@ func c12Rows(shape string, a c12Answer, cs *c12Case) [][]driver.Value {
 			row = []driver.Value{uint64(1), lbl, `{"v":1}`, cs.To}
 		case "spans-empty-otlp":
 			row = []driver.Value{strings.Repeat("\x01", 16), strings.Repeat("\x02", 8), "", cs.From, int64(5), int8(2), ""}
+		case "spans-otlp-novalue":
+			// an OTLP span (protobuf) whose attribute "a" has no value: legal protobuf, stored as received
+			row = []driver.Value{strings.Repeat("\x01", 16), strings.Repeat("\x02", 8), "", cs.From + int64(i), int64(5), int8(2),
+				"\x0a\x10" + strings.Repeat("\x01", 16) + "\x12\x08" + strings.Repeat("\x02", 8) + "\x2a\x01n" + "\x4a\x03\x0a\x01a"}
 		case "matrix-zero-ts":
 			row = []driver.Value{uint64(7), lbl, float64(1), int64(0)}
 		case "matrix":
